@@ -160,6 +160,18 @@ def run(ctx, rep):
         ten = [s_ for s_ in slices if "RangeTo{0xa}" in s_.replace(" ", "")]
         rep.check(len(ten) >= 1 and len(ten) == len(slices), "R12.2", "R12.2|first_ten|%s" % short, "%s takes [..10] of each chunk" % short, cpath, "%s slices chunks with %s" % (short, slices))
 
+    error_path_rules(ctx, rep)
+
+
+def error_path_rules(ctx, rep):
+    """R12.3: a payload that cannot be cut is reported once, no word of it is checked and the state machine restarts
+    (shared with C09: classification after a skipped payload starts from the initial state)"""
+    f = ctx.facts()
+    cg = ctx.cg()
+    reach = ctx.reachable()
+    ev = Evaluator(f)
+    O = ctx.oracle("payload_cut.json")
+    pp = L + "preprocess_payload"
     # ---------- R12.3 error path
     dp = "fastpasta::analyze::validators::its::lib::do_payload_checks"
     if dp in f.fns:
